@@ -818,6 +818,10 @@ pub fn check_map_sync(
                         let q = last_mark(marks, t0);
                         let sig = match have {
                             None if without && mutated_between(events, k, q, t1) => "snapshot:key-missing:mutated-since-quiescence",
+                            // known defect F2b: a clear that may still be queued empties the key snapshot when it is popped
+                            None if events.iter().any(|(s, e)| *s > q && *s < t1 && matches!(e, LaneEv::Clr)) => {
+                                "snapshot:key-missing:cleared-since-quiescence"
+                            }
                             None => "snapshot:key-missing",
                             Some(_) if removed_between(events, k, q, t1) => {
                                 if states.iter().all(|s| s.is_none()) {
@@ -829,7 +833,7 @@ pub fn check_map_sync(
                             Some(_) if states.iter().all(|s| s.is_none()) => "snapshot:phantom-key",
                             Some(_) => "snapshot:value-outside-window",
                         };
-                        let sig = if sig.ends_with(":removed-since-quiescence") {
+                        let sig = if sig.ends_with(":removed-since-quiescence") || sig.ends_with(":cleared-since-quiescence") {
                             // known defect F2 does not depend on how the remote linked
                             sig.to_string()
                         } else {
